@@ -287,6 +287,8 @@ def exec_plan(world, steps, trace=None):
                 if st.integration not in world.ints:
                     raise ExecError('unknown integration %r' % st.integration)
                 q = fill_params(copy.deepcopy(st.query), results)
+                if isinstance(q, ast.Select) and q.offset is not None and q.limit is None:
+                    q.limit = ast.Constant(-1)      # "OFFSET n" alone: skip n rows (sqlite spells it LIMIT -1 OFFSET n)
                 sql = str(q)
                 try:
                     cur = world.ints[st.integration].execute(sql)
